@@ -1,26 +1,30 @@
-(* Proofs/HttpBodyBound.v -- the memory bound: with body_size_limit = L, the body buffers of a stream never hold
-   more than L bytes plus one received chunk (bytes kept on request by store_streamed_bodies while streaming excepted). *)
+(* Proofs/HttpBodyBound.v -- the memory bound: with body_size_limit = L (L >= 0), in every reachable state of a
+   stream each body buffer holds at most L bytes plus the largest chunk received so far; while a body is merely
+   buffered (the state_consume states) it holds at most L bytes.  Bytes kept on request by store_streamed_bodies while a
+   body is streamed are the only exception, and are excluded by hypothesis. *)
 From Coq Require Import List Bool NArith ZArith Lia.
-From MV Require Import Base.Bytes Model.HttpBody Proofs.HttpBodyBase Proofs.HttpBodyLimit.
+From MV Require Import Base.Bytes Model.HttpBody Proofs.HttpBodyBase Proofs.HttpBodyLimit Proofs.HttpBodySteps.
 Import ListNotations.
 Open Scope Z_scope.
 
-Ltac norm H :=
-  cbv beta iota zeta delta
-    [set_client set_server set_reqbuf set_respbuf set_req_framing set_resp_framing set_req_stream set_resp_stream
-     set_fq_st set_fs_st set_req_content set_resp_content set_error set_live
-     client_state server_state request_body_buf response_body_buf req_framing resp_framing req_stream resp_stream
-     fq_st fs_st req_content resp_content flow_error flow_live
-     hstate_eqb negb andb orb fst snd stream_truthy] in H.
-Ltac break_hyp H :=
-  repeat first
-    [ rewrite relay_chunks_eq in H
-    | progress norm H
-    | progress cbn in H
-    | match type of H with
-      | context [match ?x with _ => _ end] => destruct x eqn:?
-      | context [if ?x then _ else _] => destruct x eqn:?
-      end ].
+Definition req_len (e : event) : Z := match e with ReqData d => blen d | _ => 0 end.
+Definition resp_len (e : event) : Z := match e with RespData d => blen d | _ => 0 end.
+(* largest request / response chunk of a history *)
+Fixpoint max_req (evs : list event) : Z :=
+  match evs with [] => 0 | e :: r => Z.max (req_len e) (max_req r) end.
+Fixpoint max_resp (evs : list event) : Z :=
+  match evs with [] => 0 | e :: r => Z.max (resp_len e) (max_resp r) end.
+
+Lemma req_len_nonneg e : 0 <= req_len e.
+Proof. destruct e; cbn; try lia; apply blen_nonneg. Qed.
+Lemma resp_len_nonneg e : 0 <= resp_len e.
+Proof. destruct e; cbn; try lia; apply blen_nonneg. Qed.
+Lemma max_req_nonneg evs : 0 <= max_req evs.
+Proof. induction evs; cbn; lia. Qed.
+Lemma max_resp_nonneg evs : 0 <= max_resp evs.
+Proof. induction evs; cbn; lia. Qed.
+
+Ltac fin C := rewrite C; let X := fresh in intros X; first [discriminate | contradiction].
 
 Section Bound.
 Variable S : Type.
@@ -32,9 +36,8 @@ Hypothesis HL0 : 0 <= L.
 
 Notation st := (st S).
 Notation handle_event := (handle_event S fq fs cfg).
-Notation check_body_size := (check_body_size S fq fs cfg).
+Notation run := (run S fq fs cfg).
 
-(* invariant of the request side; M = largest request chunk received so far *)
 Definition req_inv (M : Z) (s : st) : Prop :=
   match client_state s with
   | Uninit | WaitHeaders | Done => request_body_buf s = []
@@ -42,36 +45,221 @@ Definition req_inv (M : Z) (s : st) : Prop :=
   | Streaming => o_store cfg = false -> request_body_buf s = []
   | Errored => o_store cfg = false -> blen (request_body_buf s) <= L + M
   end.
+Definition resp_inv (M : Z) (s : st) : Prop :=
+  match server_state s with
+  | Uninit | WaitHeaders | Done => response_body_buf s = []
+  | Consume => blen (response_body_buf s) <= L
+  | Streaming => o_store cfg = false -> response_body_buf s = []
+  | Errored => o_store cfg = false -> blen (response_body_buf s) <= L + M
+  end.
+Definition inv (Mq Ms : Z) (s : st) : Prop :=
+  req_inv Mq s /\ resp_inv Ms s /\ (client_state s = WaitHeaders -> server_state s = Uninit).
 
-Lemma cbs_req_inv (s : st) b s' c M :
-  0 <= M ->
-  check_body_size true s = Some (b, s', c) ->
-  (client_state s = WaitHeaders /\ request_body_buf s = []) \/ client_state s = Consume ->
-  blen (request_body_buf s) <= L + M ->
-  (client_state s = WaitHeaders -> b = false -> client_state s' = WaitHeaders /\ request_body_buf s' = [])
-  /\ (client_state s = WaitHeaders -> b = true -> client_state s' = Errored /\ request_body_buf s' = [])
-  /\ (client_state s = Consume -> req_inv M s').
+Lemma req_inv_weak M s : 0 <= M -> req_inv M s -> o_store cfg = false -> blen (request_body_buf s) <= L + M.
 Proof.
-  intros HM H Hst Hb.
-  unfold HttpBody.check_body_size in H. rewrite (limit_truthy cfg L HL), orb_true_r in H. cbn [negb andb] in H.
-  rewrite HL in H.
-  unfold switch_to_stream, HttpBody.abort_body, start_request_stream, make_server_connection,
-    handle_protocol_error_connect, state_stream_request_body, hook_requestheaders in H.
-  destruct s as [cs ss qb sb qf sf qs rs q1 q2 qc sc er lv]. cbn in *.
-  destruct (c_ok cfg) eqn:Hok; destruct (o_store cfg) eqn:Hsto;
-    destruct (parse_size (o_stream cfg)) as [| |T] eqn:HT; destruct (p_req cfg) as [[| |]|] eqn:Hp;
-    (destruct Hst as [[-> ->]| ->];
-     [ cbn in H; break_hyp H; inversion H; subst; cbn; repeat split; auto; try discriminate; try congruence
-     | destruct (nonempty qb) eqn:NE;
-       [ cbn in H; destruct (blen qb <=? 0) eqn:E0; [apply Z.leb_le in E0; apply nonempty_true_blen in NE; lia|];
-         destruct (L <? blen qb) eqn:EL;
-         [ break_hyp H; inversion H; subst; unfold req_inv; cbn; repeat split; try discriminate; intros; lia
-         | apply Z.ltb_ge in EL;
-           break_hyp H; inversion H; subst; unfold req_inv; cbn; repeat split; try discriminate; intros; auto;
-           try lia; try congruence ]
-       | apply nonempty_false in NE; subst qb; cbn in H;
-         break_hyp H; inversion H; subst; unfold req_inv; cbn; repeat split; try discriminate; intros;
-         rewrite ?blen_nil; auto; try lia ] ]).
+  unfold req_inv. intros HM H ST. destruct (client_state s); try (rewrite H; rewrite ?blen_nil; lia); auto; try lia.
+  rewrite (H ST), blen_nil. lia.
+Qed.
+Lemma resp_inv_weak M s : 0 <= M -> resp_inv M s -> o_store cfg = false -> blen (response_body_buf s) <= L + M.
+Proof.
+  unfold resp_inv. intros HM H ST. destruct (server_state s); try (rewrite H; rewrite ?blen_nil; lia); auto; try lia.
+  rewrite (H ST), blen_nil. lia.
+Qed.
+Lemma req_inv_mono M M' s : M <= M' -> req_inv M s -> req_inv M' s.
+Proof. unfold req_inv. destruct (client_state s); auto. intros; specialize (H0 H1); lia. Qed.
+Lemma resp_inv_mono M M' s : M <= M' -> resp_inv M s -> resp_inv M' s.
+Proof. unfold resp_inv. destruct (server_state s); auto. intros; specialize (H0 H1); lia. Qed.
+
+(* transfer of an invariant to a state with the same buffer whose state is unchanged or errored *)
+Lemma req_inv_same M s s' : 0 <= M ->
+  request_body_buf s' = request_body_buf s -> (client_state s' = client_state s \/ client_state s' = Errored) ->
+  req_inv M s -> req_inv M s'.
+Proof.
+  intros HM HB [HC|HC] H.
+  - unfold req_inv in *. rewrite HC, HB. exact H.
+  - pose proof (req_inv_weak M s HM H) as W. unfold req_inv. rewrite HC, HB. exact W.
+Qed.
+Lemma resp_inv_same M s s' : 0 <= M ->
+  response_body_buf s' = response_body_buf s -> (server_state s' = server_state s \/ server_state s' = Errored) ->
+  resp_inv M s -> resp_inv M s'.
+Proof.
+  intros HM HB [HC|HC] H.
+  - unfold resp_inv in *. rewrite HC, HB. exact H.
+  - pose proof (resp_inv_weak M s HM H) as W. unfold resp_inv. rewrite HC, HB. exact W.
+Qed.
+
+Lemma truthy : truthy_opts cfg = true.
+Proof. unfold truthy_opts. rewrite (limit_truthy cfg L HL). apply orb_true_r. Qed.
+
+Lemma side_bound (buf : bytes) :
+  (nonempty buf = true -> truthy_opts cfg = true -> over (parse_size (o_limit cfg)) (blen buf) = false) ->
+  blen buf <= L.
+Proof.
+  intros H. destruct (nonempty buf) eqn:NE.
+  - specialize (H eq_refl truthy). rewrite HL in H. cbn in H. apply Z.ltb_ge in H. exact H.
+  - apply nonempty_false in NE. subst. rewrite blen_nil. exact HL0.
+Qed.
+
+Theorem inv_step (s s' : st) e c Mq Ms :
+  0 <= Mq -> 0 <= Ms ->
+  handle_event s e = Some (s', c) -> inv Mq Ms s ->
+  inv (Z.max Mq (req_len e)) (Z.max Ms (resp_len e)) s'.
+Proof.
+  intros HMq HMs H (IQ & IS & IC).
+  pose proof (req_len_nonneg e) as Nq. pose proof (resp_len_nonneg e) as Ns.
+  assert (HMq' : 0 <= Z.max Mq (req_len e)) by lia. assert (HMs' : 0 <= Z.max Ms (resp_len e)) by lia.
+  destruct (is_request_event e) eqn:RQ.
+  - (* request events *)
+    destruct (client_state s) eqn:CS.
+    + unfold HttpBody.handle_event in H. rewrite RQ, CS in H. discriminate.
+    + (* WaitHeaders *)
+      assert (B : request_body_buf s = []) by (unfold req_inv in IQ; rewrite CS in IQ; exact IQ).
+      assert (SU : server_state s = Uninit) by auto.
+      assert (RB : response_body_buf s = []) by (unfold resp_inv in IS; rewrite SU in IS; exact IS).
+      destruct e; try (unfold HttpBody.handle_event in H; rewrite CS in H; cbn in H; discriminate).
+      apply step_wait_request_headers in H; auto.
+      destruct H as (B' & R' & _ & [(C1 & _ & _ & S1)|(_ & S1 & [(C1 & _)|[(C1 & _)|(C1 & _)]])]);
+        (split; [unfold req_inv; rewrite C1, B', ?blen_nil; auto; intros; lia|]);
+        (split; [unfold resp_inv; rewrite S1, ?SU, R', RB; auto|]); rewrite C1; discriminate.
+    + (* Consume *)
+      destruct e; try discriminate.
+      * unfold HttpBody.handle_event in H. rewrite CS in H. cbn in H. discriminate.
+      * apply step_consume_request_data in H; auto. cbn zeta in H.
+        assert (BQ : blen (request_body_buf s) <= L) by (unfold req_inv in IQ; rewrite CS in IQ; exact IQ).
+        destruct H as (R' & _ & _ & [(C1 & B1 & _ & S1 & SIDE)|[(C1 & _ & _ & B1 & S1 & _)|[(C1 & _ & S1 & B1 & _)|(C1 & _ & _ & B1 & _ & S1)]]]).
+        -- split; [unfold req_inv; rewrite C1, B1; apply side_bound; exact SIDE|].
+           split; [apply resp_inv_mono with Ms; [lia|]; apply (resp_inv_same Ms s); auto|].
+           rewrite C1; discriminate.
+        -- split; [unfold req_inv; rewrite C1, B1; intros _; rewrite blen_app; cbn [req_len]; lia|].
+           split; [apply resp_inv_mono with Ms; [lia|]; apply (resp_inv_same Ms s); auto|].
+           rewrite C1; discriminate.
+        -- split; [unfold req_inv; rewrite C1, B1; intros ->; reflexivity|].
+           split; [apply resp_inv_mono with Ms; [lia|]; apply (resp_inv_same Ms s); auto|].
+           rewrite C1; discriminate.
+        -- split; [unfold req_inv; rewrite C1, B1, blen_nil; intros; lia|].
+           split; [apply resp_inv_mono with Ms; [lia|]; apply (resp_inv_same Ms s); auto|].
+           rewrite C1; discriminate.
+      * apply step_consume_request_eom in H; auto.
+        destruct H as (R' & _ & _ & _ & B1 & C1 & _ & OK & KO).
+        split; [unfold req_inv; rewrite C1; exact B1|].
+        split; [|rewrite C1; discriminate].
+        apply resp_inv_mono with Ms; [lia|]. apply (resp_inv_same Ms s); auto.
+        destruct (c_ok cfg); [left; apply OK; auto|right; apply KO; auto].
+    + (* Streaming *)
+      pose proof H as H0. apply step_stream_request in H; auto.
+      destruct H as (R' & S1 & _ & _ & NS & REST).
+      assert (BQ : o_store cfg = false -> request_body_buf s = []) by (unfold req_inv in IQ; rewrite CS in IQ; exact IQ).
+      split; [|split; [apply resp_inv_mono with Ms; [lia|]; apply (resp_inv_same Ms s); auto|]].
+      * destruct e; try discriminate.
+        -- unfold HttpBody.handle_event in H0. rewrite CS in H0. cbn in H0. discriminate.
+        -- destruct REST as (C1 & _). unfold req_inv. rewrite C1. intros ST. rewrite (NS ST). auto.
+        -- destruct REST as (C1 & B1 & _). unfold req_inv. rewrite C1.
+           destruct (o_store cfg) eqn:ST; [auto|]. rewrite (NS eq_refl). auto.
+      * destruct e; try discriminate; try (destruct REST as (C1 & _); rewrite C1; discriminate).
+    + unfold HttpBody.handle_event in H. rewrite RQ, CS in H. discriminate.
+    + (* Errored *)
+      rewrite (step_request_errored S fq fs cfg s e CS RQ) in H. inversion H; subst.
+      split; [apply req_inv_mono with Mq; [lia|auto]|]. split; [apply resp_inv_mono with Ms; [lia|auto]|].
+      rewrite CS; discriminate.
+  - (* response events *)
+    assert (NW : client_state s <> WaitHeaders).
+    { intros CW. specialize (IC CW). unfold HttpBody.handle_event in H. rewrite RQ, IC in H. discriminate. }
+    destruct (server_state s) eqn:SS.
+    + unfold HttpBody.handle_event in H. rewrite RQ, SS in H. discriminate.
+    + (* WaitHeaders *)
+      assert (B : response_body_buf s = []) by (unfold resp_inv in IS; rewrite SS in IS; exact IS).
+      destruct e; try discriminate; try (unfold HttpBody.handle_event in H; rewrite SS in H; cbn in H; discriminate).
+      apply step_wait_response_headers in H; auto.
+      destruct H as (B' & R' & _ & _ & [(S1 & C1 & _)|(_ & C1 & [(S1 & _)|(S1 & _)])]);
+        (split; [apply req_inv_mono with Mq; [lia|]; apply (req_inv_same Mq s); auto|]);
+        (split; [unfold resp_inv; rewrite S1, B', ?blen_nil; auto; intros; lia|]);
+        fin C1.
+    + (* Consume *)
+      destruct e; try discriminate.
+      * unfold HttpBody.handle_event in H. rewrite SS in H. cbn in H. discriminate.
+      * apply step_consume_response_data in H; auto. cbn zeta in H.
+        assert (BQ : blen (response_body_buf s) <= L) by (unfold resp_inv in IS; rewrite SS in IS; exact IS).
+        destruct H as (R' & _ & _ & [(S1 & C1 & B1 & _ & SIDE)|[(S1 & C1 & _ & _ & B1 & _)|(S1 & C1 & _ & B1 & _)]]).
+        -- split; [apply req_inv_mono with Mq; [lia|]; apply (req_inv_same Mq s); auto|].
+           split; [unfold resp_inv; rewrite S1, B1; apply side_bound; exact SIDE|]. fin C1.
+        -- split; [apply req_inv_mono with Mq; [lia|]; apply (req_inv_same Mq s); auto|].
+           split; [unfold resp_inv; rewrite S1, B1; intros _; rewrite blen_app; cbn [resp_len]; lia|].
+           fin C1.
+        -- split; [apply req_inv_mono with Mq; [lia|]; apply (req_inv_same Mq s); auto|].
+           split; [unfold resp_inv; rewrite S1, B1; intros ->; reflexivity|]. fin C1.
+      * apply step_consume_response_eom in H; auto.
+        destruct H as (R' & C1 & _ & _ & _ & B1 & S1 & _).
+        split; [apply req_inv_mono with Mq; [lia|]; apply (req_inv_same Mq s); auto|].
+        split; [unfold resp_inv; rewrite S1; exact B1|]. fin C1.
+    + (* Streaming *)
+      pose proof H as H0. apply step_stream_response in H; auto.
+      destruct H as (R' & C1 & _ & _ & _ & NS & REST).
+      assert (BQ : o_store cfg = false -> response_body_buf s = []) by (unfold resp_inv in IS; rewrite SS in IS; exact IS).
+      split; [apply req_inv_mono with Mq; [lia|]; apply (req_inv_same Mq s); auto|].
+      split; [|fin C1].
+      destruct e; try discriminate.
+      * unfold HttpBody.handle_event in H0. rewrite SS in H0. cbn in H0. discriminate.
+      * unfold resp_inv. rewrite REST. intros ST. rewrite (NS ST). auto.
+      * destruct REST as (S1 & B1). unfold resp_inv. rewrite S1.
+        destruct (o_store cfg) eqn:ST; [auto|]. rewrite (NS eq_refl). auto.
+    + unfold HttpBody.handle_event in H. rewrite RQ, SS in H. discriminate.
+    + rewrite (step_response_errored S fq fs cfg s e SS RQ) in H. inversion H; subst.
+      split; [apply req_inv_mono with Mq; [lia|auto]|]. split; [apply resp_inv_mono with Ms; [lia|auto]|].
+      intros X; contradiction.
+Qed.
+
+Lemma inv_init q0 s0 : inv 0 0 (init S q0 s0).
+Proof. unfold inv, req_inv, resp_inv; cbn. auto. Qed.
+
+(* the invariant holds after every history *)
+Theorem inv_run evs : forall (s s' : st) out cr Mq Ms,
+  0 <= Mq -> 0 <= Ms -> inv Mq Ms s -> run s evs = (s', out, cr) ->
+  inv (Z.max Mq (max_req evs)) (Z.max Ms (max_resp evs)) s'.
+Proof.
+  induction evs as [|e r IH]; intros s s' out cr Mq Ms HMq HMs I R.
+  - cbn in R. inversion R; subst. cbn. rewrite !Z.max_l by lia. exact I.
+  - cbn in R. destruct (handle_event s e) as [[s1 c1]|] eqn:HE.
+    + destruct (run s1 r) as [[s2 c2] cr2] eqn:RR. inversion R; subst.
+      pose proof (inv_step _ _ _ _ _ _ HMq HMs HE I) as I1.
+      pose proof (req_len_nonneg e). pose proof (resp_len_nonneg e).
+      eapply IH in RR; [|idtac|idtac|exact I1]; try lia.
+      cbn [max_req max_resp].
+      destruct RR as (A & B & C). split; [|split; auto].
+      * eapply req_inv_mono; [|exact A]. lia.
+      * eapply resp_inv_mono; [|exact B]. lia.
+    + inversion R; subst. destruct I as (A & B & C). split; [|split; auto].
+      * eapply req_inv_mono; [|exact A]. pose proof (max_req_nonneg (e :: r)). lia.
+      * eapply resp_inv_mono; [|exact B]. pose proof (max_resp_nonneg (e :: r)). lia.
+Qed.
+
+(* the bound, for every history from the initial state, every prefix being a history itself *)
+Theorem buffer_bound q0 s0 evs (s : st) out cr :
+  run (init S q0 s0) evs = (s, out, cr) ->
+  (* while buffering, never more than the limit *)
+  (client_state s = Consume -> blen (request_body_buf s) <= L)
+  /\ (server_state s = Consume -> blen (response_body_buf s) <= L)
+  (* in every state: the limit plus one received chunk, unless streamed bytes are kept on request *)
+  /\ (o_store cfg = false ->
+      blen (request_body_buf s) <= L + max_req evs /\ blen (response_body_buf s) <= L + max_resp evs)
+  (* streamed without buffering *)
+  /\ (o_store cfg = false -> client_state s = Streaming -> request_body_buf s = [])
+  /\ (o_store cfg = false -> server_state s = Streaming -> response_body_buf s = [])
+  (* nothing is held before the head and after the message is complete *)
+  /\ (client_state s = WaitHeaders \/ client_state s = Done -> request_body_buf s = [])
+  /\ (server_state s = WaitHeaders \/ server_state s = Done -> response_body_buf s = []).
+Proof.
+  intros R. pose proof (inv_run evs _ _ _ _ 0 0 (Z.le_refl 0) (Z.le_refl 0) (inv_init q0 s0) R) as (A & B & _).
+  pose proof (max_req_nonneg evs). pose proof (max_resp_nonneg evs).
+  rewrite !Z.max_r in * by lia.
+  repeat split.
+  - intros C. unfold req_inv in A. rewrite C in A. exact A.
+  - intros C. unfold resp_inv in B. rewrite C in B. exact B.
+  - apply req_inv_weak; auto.
+  - apply resp_inv_weak; auto.
+  - intros ST C. unfold req_inv in A. rewrite C in A. auto.
+  - intros ST C. unfold resp_inv in B. rewrite C in B. auto.
+  - intros [C|C]; unfold req_inv in A; rewrite C in A; exact A.
+  - intros [C|C]; unfold resp_inv in B; rewrite C in B; exact B.
 Qed.
 
 End Bound.
